@@ -594,3 +594,66 @@ def sources():
                                      "the expander receives macros = (macros of the extra files, in file order) ++ (macros of the rule file) and the pattern wrapped in $and; its result is returned",
                                      ok, P13, detail=repr(ml)[:200], witness=repr(ml)[:80]))
     return obs
+
+
+@scenario("macros:sources-plumbing", "jasm.match.MasterOfPuppets.__init__", ["C13", "C20", "C19"],
+          inlined=["MatchConfig.__init__ (dataclass)", "Yaml2Regex.__init__"],
+          doc="the list of extra macro files reaches the compiler as the caller gave it: same files, same order, repeats kept")
+def sources_plumbing():
+    ensure()
+    obs: List[Ob] = []
+    func = "jasm.match.MasterOfPuppets.__init__"
+    gd = J.gd
+    given_lists = {"none": None, "one": ["m.yaml"], "not-alphabetical": ["z_site.yaml", "a_base.yaml"],
+                   "repeat": ["m2.yaml", "m1.yaml", "m2.yaml"], "symbolic": "sym"}
+    for lid, given in given_lists.items():
+        rec: List[Any] = []
+
+        def fn():
+            rec.clear()
+            files = None if given is None else ([Name("f1"), Name("f2")] if given == "sym" else list(given))
+            mc = gd.MatchConfig(pattern_pathstr="p.yaml", input_file="in.s", input_file_type=gd.InputFileType.assembly, macros=files)
+            seen_cfg = mc.macros
+
+            class Y2:
+                def __init__(self, *a, **k):
+                    rec.append((a, dict(k)))
+
+                def produce_regex(self):
+                    return "x"
+            o_y = J.match.Yaml2Regex
+            J.match.Yaml2Regex = Y2
+            try:
+                J.match.MasterOfPuppets(match_config=mc)
+            finally:
+                J.match.Yaml2Regex = o_y
+            return [files, seen_cfg, list(rec)]
+        try:
+            run = sym_run(fn)
+        except Unsupported as e:
+            obs.append(simple_ob(f"sources-plumbing:{lid}:RUN", func, "RUN", "symbolic execution completes", None, ["C13", "C20"], detail=f"unsupported: {e}"))
+            continue
+        for i, p in enumerate(run.paths):
+            base = f"sources-plumbing:{lid}:p{i}"
+            if p.kind != "ret":
+                obs.append(simple_ob(base + ":EXC", func, "EXC", "no exception", False, ["C13", "C20"], detail=repr(p.value), witness=lid))
+                continue
+            files, seen_cfg, calls = p.value
+
+            def same(a, b):
+                if a is None or b is None:
+                    return a is None and b is None
+                return len(a) == len(b) and all(x is y or (isinstance(x, str) and not isinstance(x, Name) and x == y) for x, y in zip(a, b))
+            obs.append(simple_ob(base + ":POST-config-field", "jasm.global_definitions.MatchConfig", "POST",
+                                 f"[{lid}] MatchConfig.macros is the list the caller gave (same files, same order, repeats kept)",
+                                 same(files, seen_cfg), ["C13", "C20"], detail=repr(seen_cfg), witness=repr(given)))
+            okc = len(calls) == 1
+            if okc:
+                a, k = calls[0]
+                got = k.get("macros_from_terminal", a[1] if len(a) > 1 else None)
+                okc = same(files, got) and (a[0] if a else k.get("pattern_pathstr")) == "p.yaml"
+            obs.append(simple_ob(base + ":POST-compiler-call", func, "POST",
+                                 f"[{lid}] one compiler is built from (the rule path, the extra macro files as given)", okc, ["C13", "C20", "C19"],
+                                 detail=repr(calls)[:200], witness=repr(given)))
+    return obs
+
